@@ -268,6 +268,15 @@ modify_factor(cholmod_sparse *A, cholmod_factor *L,
 
 }
 
+#ifdef PHOTOSPLINE_VERIF
+/*
+ * Verification hook: counts the calls in which more than one row is added to
+ * or deleted from an existing factorization by row updates (rather than by
+ * refactorizing), so that a test can tell whether it reached that path.
+ */
+long photospline_verif_multirow_updates = 0;
+#endif
+
 cholmod_factor* 
 modify_factor_p(cholmod_sparse *A, cholmod_factor *L,
     long *F, long *nF_, long *G, long *nG_, long *H1, long *nH1_,
@@ -287,6 +296,10 @@ modify_factor_p(cholmod_sparse *A, cholmod_factor *L,
 	iPerm = NULL;
 
 	update_ready = (L && (L->n == (nF + nG)));
+#ifdef PHOTOSPLINE_VERIF
+	if (update && update_ready && (nH1 + nH2) > 1)
+		photospline_verif_multirow_updates++;
+#endif
 
 	/* Compute the inverse of the fill-reducing permutation */
 	if (L && L->Perm) {
